@@ -937,7 +937,7 @@ def run(ctx, load):
     seqmodel.report_list_ops(P, ctx, 'C04.list-operations', 'valid', site)
     ctx.floor('C04.list-operations', 9)
     seqmodel.report_list_ops(P, ctx, 'C04.array-operations', 'valid', site, T='Array')
-    ctx.floor('C04.array-operations', 9)
+    ctx.floor('C04.array-operations', 11)
     check_full_scans(P, ctx)
     # sort exchanges elements with swap(), whose fallback is memswap: every byte of both operands must be exchanged
     from .rules_c10 import check_memswap
